@@ -430,8 +430,11 @@ def workload(ctx, repo):
         stride = 24 if ctx.tier == "quick" else 3
         for desc in descs:
             k += 1
-            must = (mode == "gregorian" and desc["dur"] == {"years": 1}
-                    and desc["fmt"] == 3)      # year steps from clamp days
+            must = (mode == "gregorian" and (
+                (desc["dur"] == {"years": 1} and desc["fmt"] == 3) or
+                # ... and backward month steps from clamp days
+                (desc["fmt"] == 4 and desc["reps"] is None and
+                 "months" in desc["dur"] and "day_of_month" in desc["end"])))
             if must:
                 if not ctx.mine(k):
                     continue
